@@ -1,5 +1,6 @@
 import LarkVerif.Forest
 import LarkVerif.ForestVisit
+import LarkVerif.ForestCert
 /-! # C20 — the parse forest encodes exactly the derivations; every walk of it terminates and reports cycles
 
 Completeness of the forest is shared with C04 (`Props.C04.every_derivation_is_in_the_forest`).  This file holds the clauses that are C20's own:
@@ -30,5 +31,22 @@ theorem sub_walk_restores_the_path (g : Graph) (sv : Bool) (path visited cs : Li
 /-- non-vacuity: on the cyclic graph `0 → 1 → {token 2, 0}` the walk enters 0 and 1, visits the token, reports the cycle back to 0 and leaves -/
 example : visit exGraph false 0 = [Ev.enter 0, Ev.enter 1, Ev.tok 2, Ev.cycle 0, Ev.leave 1, Ev.leave 0] := by
   simp [visit, visitKids, exGraph]
+
+/-- **Soundness of the forest, certified per forest.**  When the local checker `ForestCert.checkForest` accepts the node graph exported from the real parser
+    (every packed family: its rule is a rule of the grammar, the node's label fixes the dot, the right child is the symbol before the dot — a token that is an
+    edge of the lattice or a symbol node of that nonterminal —, the left child is the intermediate node of the same rule one symbol earlier ending where the
+    right child starts, and the node's end is reachable from the family's end over ignored text), then *every* tree that can be read from the root — however
+    many there are, the forest may be cyclic — is a derivation of the start symbol whose tokens spell a path through the input from the root's start to its
+    end. Together with `Props.C04.every_derivation_is_in_the_forest` the certified forest encodes exactly the parses. -/
+theorem certified_forest_encodes_only_parses (G : EarleyProto.Grammar) (L : EarleyProto.FLattice) (F : ForestCert.Forest) (fuel : Nat)
+    (h : ForestCert.checkForest G L F fuel = true) (root start : Nat) (hroot : (F.node root).lbl = ForestCert.Lbl.sym start) (ws : List Nat)
+    (hr : ForestCert.Reads F root ws) :
+    EarleyProto.Path L.toLattice (F.node root).s (F.node root).e ws ∧ EarleyProto.DerivesSeq G [EarleyProto.Sym.nt start] ws :=
+  ForestCert.certified_root_trees_are_parses G L F fuel h root start hroot ws hr
+
+/-- … and the same for every node of the forest, for what its label stands for -/
+theorem certified_forest_nodes_sound (G : EarleyProto.Grammar) (L : EarleyProto.FLattice) (F : ForestCert.Forest) (fuel : Nat)
+    (h : ForestCert.checkForest G L F fuel = true) (n : Nat) (ws : List Nat) (hr : ForestCert.Reads F n ws) : ForestCert.Claim G L F n ws :=
+  ForestCert.forest_sound G L F fuel h n ws hr
 
 end Props.C20
